@@ -687,4 +687,14 @@ theorem C05_flags_restart_siginfo :
     Gen.libFlags = Gen.SA_RESTART.toNat ||| Gen.SA_SIGINFO.toNat ∧ Gen.SA_RESTART ≠ 0 ∧ Gen.SA_SIGINFO ≠ 0 := by
   decide
 
+/-- **C05.container_shape** — tie to the source (regenerated): an id is a `u128` compared numerically
+(`derive(Ord)` on the one-field tuple struct), the actions of a signal live in a `BTreeMap` keyed by it, the
+signals in a `HashMap`, the counter is a `u128`. This is what the model's "list of (id, action) in registration
+order; removing one entry leaves the others where they are" stands for: a map ordered by an id that is handed out
+in increasing order iterates in registration order, and removal of a key does not move other keys. -/
+theorem C05_container_shape :
+    Gen.registryTypes = [("ActionId", "u128"), ("ActionId.derives.Ord", "true"),
+      ("Slot.actions", "BTreeMap<ActionId,Arc<Action>>"), ("SignalData.signals", "HashMap<c_int,Slot>"),
+      ("SignalData.next_id", "u128"), ("SigId.action", "ActionId")] := by decide
+
 end SigHook.Registry
